@@ -141,6 +141,25 @@ CLAIMS = {
          "negative; lazily computed scores equal the model of the Kemeny routine on the first ranking.",
          "Trusted: Coq kernel + vm_compute; model; harness; CBC objective value read through PuLP.",
          "DESIGN.md section 4, C04"),
+ "C03": ("Coq well-formedness theorems for the modelled algorithms + per-run judgement in Coq of every returned consensus",
+         "PARTIAL proof. Machine-checked for all inputs: Borda (both variants), Copeland, KwikSort (every pivot script) return a partition of "
+         "the universe into non-empty buckets; unified rankings (PickAPerm's candidates) rank exactly the universe; decoding a dense bucket-id "
+         "vector gives non-empty disjoint buckets. Not theorems in this version: the defeat-count decoders of the exact algorithms / ParCons' "
+         "concatenation / BioConsert's dictionary decoder. Per run, judged in Coq on typed names: 15 configurations x datasets over ints, "
+         "colliding ints, letters, digit strings, mixed names, duplicates, empty rankings, one element, both values of "
+         "return_at_most_one_ranking: >= 1 ranking (exactly 1 when asked), non-empty disjoint buckets, union = universe with types preserved, "
+         "positions/domain/size consistent.",
+         "Trusted: Coq kernel + vm_compute; models; harness; solver, igraph and random pivots outside the model.",
+         "DESIGN.md section 4, C03"),
+ "C14": ("Coq theorems by induction over the tree of algorithm configurations + correspondence of predicate and compute outcomes",
+         "Machine-checked over all configuration trees (BioConsert with any starters, ParCons with any auxiliary, any nesting) and all schemes: the "
+         "predicate is a total boolean function; complete datasets are never refused; predicate true => compute goes through on incomplete "
+         "data; for Borda, PickAPerm, BioCo and BioConsert over lists of those, refusal on incomplete data <=> predicate false; Borda's "
+         "predicate <=> positive multiple of the four families. Tie to the code: predicate value and compute outcome (ok / documented refusal / "
+         "other exception) on a complete and an incomplete dataset for leaves, nested and random trees x presets, multiples and one-entry "
+         "near-misses of B and T.",
+         "Trusted: Coq kernel + vm_compute; model; harness; ParCons' outcome when its auxiliary is not relevant depends on component sizes (left open by the model).",
+         "DESIGN.md section 4, C14"),
 }
 NOT_YET = "check not built yet in this phase (planned: DESIGN.md section 4); no claim is made"
 
